@@ -157,11 +157,23 @@ def do_shared(case):
                        parallelize=False, pbar=False, cache=True)
     shared, fresh = [], []
     ps = case['params']
-    for a, b in zip(ps, ps[1:] + ps[:1]):
+    def stats(c, early_first):
+        # early_first: the first query stays inside the first epoch (the shared state space is then left pointing at it)
+        out = [float(c.tree_height.cdf(0.25))] if early_first else []
+        out += [c.tree_height.mean, c.total_branch_length.var, c.sfs.mean.data.tolist(), float(c.tree_height.cdf(1.0))]
+        return out
+    for j, (a, b) in enumerate(zip(ps, ps[1:] + ps[:1])):
         c1 = inf.get_coal(N0=a, N1=b)
-        shared.append([c1.tree_height.mean, c1.total_branch_length.var, c1.sfs.mean.data.tolist(), float(c1.tree_height.cdf(1.0))])
+        shared.append(stats(c1, j % 2 == 1))
         c2 = coal(a, b)
-        fresh.append([c2.tree_height.mean, c2.total_branch_length.var, c2.sfs.mean.data.tolist(), float(c2.tree_height.cdf(1.0))])
+        fresh.append(stats(c2, j % 2 == 1))
+    # parameter sets that give ONE-epoch models (every epoch starts at time 0) through a second shared Inference
+    inf1 = pg.Inference(bounds={'N0': (0.1, 10)}, coal=coal, loss=lambda c, o: 0.0, x0={'N0': 1.0}, parallelize=False, pbar=False, cache=True)
+    for j, a in enumerate(ps):
+        c1 = inf1.get_coal(N0=a)
+        shared.append(stats(c1, j % 2 == 0))
+        c2 = coal(a)
+        fresh.append(stats(c2, j % 2 == 0))
     return {'shared': shared, 'fresh': fresh}
 
 
